@@ -121,7 +121,10 @@ class RewardWorld(World):
 
 
 class DispatcherWorld(World):
-    def __init__(self, ctx):
+    def __init__(self, ctx, n_swap=None):
+        """n_swap=None: swap_denoms = [stSei reward denom, bSei reward denom]; n_swap=k: a list of k symbolic entries, each one of
+        {stSei reward denom, bSei reward denom, a foreign denom} (repetitions allowed: update_swap_denom does not de-duplicate),
+        and the contract also holds a balance of the foreign denom."""
         World.__init__(self, ctx, 'dispatcher')
         I = self.I
         self.owner, self.pending, self.hub = I.S('owner_addr'), I.S('pending_owner'), I.S('hub_contract')
@@ -130,36 +133,71 @@ class DispatcherWorld(World):
         self.rate = self.iv('keeper_rate', 0, E)
         self.bal_s = self.iv('balance_stsei_denom', 0, CAP)
         self.bal_b = self.iv('balance_bsei_denom', 0, CAP)
+        self.fdenom = I.S('uforeign')
+        self.bal_o, self.sim = None, None
+        swap_list = [self.sdenom, self.bdenom]
+        if n_swap is not None:
+            swap_list = [self.sv('swap_denom_%d' % i) for i in range(n_swap)]
+            for d in swap_list:
+                self.st.add(z3.Or(d.id == self.sdenom.id, d.id == self.bdenom.id, d.id == self.fdenom.id))
+            self.bal_o = self.iv('balance_foreign_denom', 0, CAP)
+            self.sim = self.iv('swap_simulation_return', 0, CAP)
+        self.swap_list = swap_list
         self.cfg = self.mk.struct('state::Config', self.crate, owner=self.mk.caddr(self.owner), hub_contract=self.mk.caddr(self.hub),
                                   bsei_reward_contract=self.mk.caddr(self.reward), stsei_reward_denom=self.sdenom, bsei_reward_denom=self.bdenom,
                                   krp_keeper_address=self.mk.caddr(self.keeper), krp_keeper_rate=DEC(self.rate),
-                                  swap_contract=self.mk.caddr(self.swap), swap_denoms=VecV([self.sdenom, self.bdenom]),
+                                  swap_contract=self.mk.caddr(self.swap), swap_denoms=VecV(swap_list),
                                   oracle_contract=self.mk.caddr(self.oracle))
         self.item('config', self.cfg)
         self.item('newowneraddr', Agg('NewOwnerAddr', (self.mk.caddr(self.pending),)))
         self.principals = {'owner': self.owner, 'pending': self.pending, 'hub': self.hub}
         self.price = self.iv('oracle_price', 1, U128_MAX)
 
+    def known(self, d):
+        """is denom d in the configured swap_denoms list"""
+        cs = [x.id == d.id for x in self.swap_list]
+        cs = [c for c in cs if c is not False]
+        if any(c is True for c in cs):
+            return True
+        return z3.Or(*cs) if cs else False
+
     def q_bank_balance(self, st, addr, denom):
         S = self.I.summ
         for st2, t in self.I.truth(st, S.struct_eq(st, denom, self.sdenom)):
-            yield st2, (self.bal_s if t else self.bal_b)
+            if t:
+                yield st2, self.bal_s
+            elif self.bal_o is None:
+                yield st2, self.bal_b
+            else:
+                for st3, t3 in self.I.truth(st2, S.struct_eq(st2, denom, self.bdenom)):
+                    yield st3, (self.bal_b if t3 else self.bal_o)
 
     def q_all_balances(self, st, addr):
-        yield st, [self.mk.coin(self.bal_s, self.sdenom), self.mk.coin(self.bal_b, self.bdenom)]
+        out = [self.mk.coin(self.bal_s, self.sdenom), self.mk.coin(self.bal_b, self.bdenom)]
+        if self.bal_o is not None:
+            out.append(self.mk.coin(self.bal_o, self.fdenom))
+        yield st, out
 
     def q_smart(self, st, addr, msg, target_ty, crate):
         if isinstance(msg, Agg) and msg.vname == 'QueryExchangeRateByAssetLabel':
             yield st, ok(DEC(self.price))
+            return
+        if isinstance(msg, Agg) and msg.vname == 'QuerySimulation' and self.sim is not None:
+            yield st, ok(self.mk.struct('SimulationResponse', 'basset', return_amount=U128(self.sim), spread_amount=U128(0), commission_amount=U128(0)))
             return
         raise Gap('dispatcher world: smart query %r' % (msg,))
 
     def querier_template(self):
         def q(T):
             me = T.string(self.self_addr)
-            return {'balances': [{'address': me, 'denom': 'usei', 'amount': T.value(U128(self.bal_s))},
-                                 {'address': me, 'denom': 'uusd', 'amount': T.value(U128(self.bal_b))}],
-                    'smart': [{'contract': T.string(self.oracle), 'key': 'query_exchange_rate_by_asset_label', 'response': T.value(DEC(self.price))}]}
+            q_ = {'balances': [{'address': me, 'denom': 'usei', 'amount': T.value(U128(self.bal_s))},
+                               {'address': me, 'denom': 'uusd', 'amount': T.value(U128(self.bal_b))}],
+                  'smart': [{'contract': T.string(self.oracle), 'key': 'query_exchange_rate_by_asset_label', 'response': T.value(DEC(self.price))}]}
+            if self.bal_o is not None:
+                q_['balances'].append({'address': me, 'denom': 'uforeign', 'amount': T.value(U128(self.bal_o))})
+                q_['smart'].append({'contract': T.string(self.swap), 'key': 'query_simulation',
+                                    'response': {'return_amount': T.value(U128(self.sim)), 'spread_amount': '0', 'commission_amount': '0'}})
+            return q_
         return q
 
 
